@@ -195,6 +195,52 @@ example : repeatEnough rne53 3 2 4 := by decide +kernel
 example : repeatSamples ([] : List Nat) 2 4 = .error "ZeroDivisionError" ∧
     repeatSamples [1, 2, 3] 2 0 = .error "ValueError" := by decide +kernel
 
+/-! ### multi-channel input (shape `[n, channels]`, what `make_stereo` returns)
+
+`crop_samples` slices and `repeat_samples_to_duration` concatenates / takes `len` along axis 0, so on
+a 2-D array they act on FRAMES.  Every theorem above is stated for `List α` with `α` arbitrary:
+`α := frame` (a pair for stereo) is the multi-channel statement, no new model is needed.
+`repeat_spec_frames` spells that instance out; `crop_map` / `repeat_map` say that the functions
+commute with any per-frame map, in particular with the projection to one channel: each channel of
+the repeated stereo signal is the repetition of that channel (errors included). -/
+
+theorem crop_map {α β} (f : α → β) (R : Rat → Rat) (xs : List α) (rate : Int) (b len : Rat) :
+    cropR R (xs.map f) rate b len = (cropR R xs rate b len).map f := by
+  unfold cropR
+  exact pySlice_map f xs _ _
+
+theorem repeat_map {α β} (f : α → β) (R : Rat → Rat) (xs : List α) (rate : Int) (D : Rat) :
+    repeatR R (xs.map f) rate D = (repeatR R xs rate D).map (List.map f) := by
+  unfold repeatR
+  simp only [List.length_map]
+  split
+  · rfl
+  · split
+    · rfl
+    · split
+      · rfl
+      · simp only [Except.map, flatten_replicate_map, crop_map]
+
+/-- **repeat_spec for stereo frames**: a non-empty list of (left, right) frames, positive rate and
+duration, side condition on the float ceiling: exactly `int(D·rate)` frames, frame `i` is input
+frame `i mod len`, and each channel of the result is the mono repetition of that channel -/
+theorem repeat_spec_frames {α} {R} (hR : SignPreserving R) (xs : List (α × α)) (rate : Int) (D : Rat)
+    (hx : xs ≠ []) (hr : 0 < rate) (hD : 0 < D) (side : repeatEnough R xs.length rate D) :
+    ∃ ys, repeatR R xs rate D = .ok ys ∧ ys.length = (secToSamples R D rate).toNat ∧
+      (∀ i, i < (secToSamples R D rate).toNat → ys[i]? = xs[i % xs.length]?) ∧
+      repeatR R (xs.map Prod.fst) rate D = .ok (ys.map Prod.fst) ∧
+      repeatR R (xs.map Prod.snd) rate D = .ok (ys.map Prod.snd) := by
+  obtain ⟨ys, h, hl, hi⟩ := repeat_spec hR xs rate D hx hr hD side
+  refine ⟨ys, h, hl, hi, ?_, ?_⟩
+  · rw [repeat_map, h]; rfl
+  · rw [repeat_map, h]; rfl
+
+example : repeatSamples [((1 : Int), (-1 : Int)), (2, -2), (3, -3)] 2 (5 / 2) =
+    .ok [(1, -1), (2, -2), (3, -3), (1, -1), (2, -2)] := by decide +kernel
+example : crop [((1 : Int), (-1 : Int)), (2, -2), (3, -3)] 2 (1 / 2) 1 = [(2, -2), (3, -3)] := by
+  decide +kernel
+example : repeatEnough rne53 3 2 (5 / 2) := by decide +kernel
+
 /-! ## make_stereo -/
 
 theorem stereo_dtype_error {α} (z : α) (dl dr : Dtype) (l r : List α) (h : dl ≠ dr) :
